@@ -585,3 +585,68 @@ Fixpoint nforest_eqb (a b : nforest) : bool :=
   | NNode x k r, NNode y k' r' => name_eqb x y && nforest_eqb k k' && nforest_eqb r r'
   | _, _ => false
   end.
+
+Definition dummy_lab : lab := {| l_sym := {| s_name := []; s_lib := false |}; l_c := false; l_exc := false |}.
+Fixpoint iforest_labs (tab : list lab) (f : iforest) : forest :=
+  match f with
+  | INil => FNil
+  | INode i exc kids rest =>
+      let b := nth i tab dummy_lab in
+      FNode {| l_sym := l_sym b; l_c := l_c b; l_exc := exc |} (iforest_labs tab kids) (iforest_labs tab rest)
+  end.
+
+(* pre-order (depth, name) sequence: determines a forest *)
+Fixpoint nentries (d : nat) (f : nforest) : list (nat * name) :=
+  match f with NNil => [] | NNode n k r => (d, n) :: nentries (S d) k ++ nentries d r end.
+Fixpoint rec_entries (rs : list rec) : list (nat * name) :=
+  match rs with
+  | [] => []
+  | REntry d s :: r => (d, s_name s) :: rec_entries r
+  | RExit _ _ :: r => rec_entries r
+  end.
+Definition dn_eqb (a b : nat * name) : bool := Nat.eqb (fst a) (fst b) && name_eqb (snd a) (snd b).
+
+(* os._exit: libmcount writes the ENTRY of a frame lazily, when a record below it is written (a
+   traced call completes); frames still open at _exit without a completed traced call below them
+   leave no record.  Open frames are the rightmost path; they carry l_exc = true in e2e cases. *)
+Fixpoint trim_open (f : forest) : forest :=
+  match f with
+  | FNil => FNil
+  | FNode b k r =>
+      match r with
+      | FNil => if l_exc b
+                then match trim_open k with FNil => FNil | k' => FNode b k' FNil end
+                else f
+      | _ => FNode b k (trim_open r)
+      end
+  end.
+Fixpoint prefix_eqb {A} (eq : A -> A -> bool) (a b : list A) : bool :=     (* a is a prefix of b *)
+  match a, b with
+  | [], _ => true
+  | x :: a', y :: b' => eq x y && prefix_eqb eq a' b'
+  | _, _ => false
+  end.
+
+(* an end-to-end case: options, the call forest the program logged itself (index forest over a
+   table of labelled names; exc = still open when the program called os._exit), and the forest
+   `uftrace replay` printed *)
+Record ecase := {
+  x_env : option (list name);
+  x_lib : libmode;
+  x_tab : list lab;
+  x_log : iforest;
+  x_open : bool;                   (* ended by os._exit *)
+  x_replay : nforest
+}.
+(* specification: replay shows exactly the selected forest *)
+Definition e_ok (k : ecase) : bool :=
+  nforest_eqb (names_of (trim_open (select (mkcfg (x_env k) (x_lib k) true) 0 0 0 (iforest_labs (x_tab k) (x_log k)))))
+              (x_replay k).
+(* correspondence: the model automaton + shadow stack produce the same entries as the real run *)
+Definition e_agrees (fixed : bool) (k : ecase) : bool :=
+  let c := mkcfg (x_env k) (x_lib k) fixed in
+  let '(_, recs, _) := mc_run [] (snd (run c st0 (events (iforest_labs (x_tab k) (x_log k))))) in
+  if x_open k then prefix_eqb dn_eqb (nentries O (x_replay k)) (rec_entries recs)
+  else list_eqb dn_eqb (rec_entries recs) (nentries O (x_replay k)).
+Definition e_in_defect_class (k : ecase) : bool :=
+  negb (nobad (mkcfg (x_env k) (x_lib k) false) 0 0 (iforest_labs (x_tab k) (x_log k))).
